@@ -307,7 +307,19 @@ func (e *kvElection) attemptAcquireWithRetry(ctx context.Context) {
 	}
 }
 
+// isStopped reports whether Stop/StopWithContext has been called (and Start not
+// since). Multi-step acquisitions check it between store operations: a stopped
+// election issues no new store operation.
+func (e *kvElection) isStopped() bool {
+	s, _ := e.state.Load().(string)
+	return s == StateStopped
+}
+
 func (e *kvElection) attemptAcquire() error {
+	if e.isStopped() {
+		return ErrAlreadyStopped
+	}
+
 	token := uuid.New().String()
 
 	payload := leadershipPayload{
@@ -465,6 +477,10 @@ func (e *kvElection) becomeLeader(token string, rev uint64) {
 }
 
 func (e *kvElection) attemptPriorityTakeover(payloadBytes []byte) error {
+	if e.isStopped() {
+		return ErrAlreadyStopped
+	}
+
 	entry, err := e.kv.Get(e.key)
 	if err != nil {
 		return err
@@ -483,6 +499,12 @@ func (e *kvElection) attemptPriorityTakeover(payloadBytes []byte) error {
 		e.leaderID.Store(currentPayload.ID)
 		e.revision.Store(entry.Revision())
 		return fmt.Errorf("current leader has equal or higher priority: %d >= %d", currentPayload.Priority, e.cfg.Priority)
+	}
+
+	// Replacing the record of a healthy leader and then declining leadership
+	// would leave the group without a leader until the record expires.
+	if e.isStopped() {
+		return ErrAlreadyStopped
 	}
 
 	newRev, err := e.kv.Update(e.key, payloadBytes, entry.Revision())
